@@ -79,7 +79,7 @@ pub fn run(em: &mut Emit, thorough: bool, seed: u64) {
         let arity = params.split(") (").count().min(9);
         let arity = if params.is_empty() { 0 } else { params.matches('(').count().max(1) + params.split_whitespace().filter(|w| *w == "args" || *w == "ident" || *w == "expr").count() };
         let _ = arity;
-        for name in ["hf", "size"] {
+        for name in ["hf", "size", "_hf"] {
             let spec = CtxSpec { vars: base_vars.clone(), funs: vec![HostFn { kind, name: name.to_string() }] };
             let maxargs = 11usize.min(params.split_whitespace().count() + 2);
             for n in 0..=maxargs.min(4).max(if kind.starts_with("hv") { maxargs } else { 0 }) {
